@@ -114,6 +114,12 @@ check("C14", "model_checking",
       "bounded-exhaustive history/input enumeration against a reference model (mc) + loom linearizability checking",
       "DESIGN.md §5 C14", "mc+lm")
 
+check("C19", "fault_enumeration",
+      "A scripted fake node (real TCP listener owned by the harness, with a connect(2) seam so that a refused attempt is counted exactly) plays every outcome sequence of length <= max_attempts+2 over the seven-outcome alphabet (refused, accepted-then-closed, closed-while-idle, silent-until-timeout, malformed reply, application error, success) for max_attempts 1,2 (thorough 1,2,3), followed by a healthy phase of two calls, against Fleet and AsyncFleet (call_json and call_message); all 4^4 tag-subset assignments over 2 tags x every requested subset for broadcasts. Oracle as the property states it: attempts <= max, every retry preceded by a transport failure, nothing after a reply, result = that reply or the last transport error, never wedged, broadcast addresses exactly the matching nodes.",
+      "Real loopback TCP and a 150 ms node timeout: verdicts depend only on counts and results, every step waits for a positive event under a heartbeat watchdog, and a violation must reproduce from its recorded case. A malformed reply may be classified either way.",
+      "exhaustive fault-sequence enumeration against the running fleets with a scripted node",
+      "DESIGN.md §5 C19", "mc")
+
 ALL = [f"C{i:02d}" for i in range(1, 20)]
 for pid in ALL:
     if pid not in CHECKS:
